@@ -306,7 +306,10 @@ func (w *Worker) account(c *SimCase, st *CaseStats) {
 		}
 		o.Runs += len(st.TwinRuns)
 	}
-	if c.Mutated != "" {
+	if c.Corpus != "" {
+		o.Extra["corpus_programs_run"]++
+		o.Extra["corpus:"+c.Corpus]++
+	} else if c.Mutated != "" {
 		o.Extra["mutants_accepted_and_run"]++
 	}
 	if c.StageRen != nil {
